@@ -86,7 +86,7 @@ def attrs (ty cls : String) : Option Attrs :=
   | "overflow" | "neg-overflow" | "near-overflow" => some { py := .float, f32over := true }
   | "decimal-integral" => some { py := .decimal }
   | "decimal-fractional" => some { py := .decimal, whole := false }
-  | "str" | "ascii" | "unicode" | "nul" | "uuid" => some { py := .str }
+  | "str" | "ascii" | "unicode" | "nul" | "uuid" | "long" => some { py := .str }
   | "bytes" | "bytes-invalid-utf8" => some { py := .bytes }
   | "bytearray" => some { py := .bytearray }
   | "date" => some { py := .date }
@@ -114,7 +114,7 @@ def arrowExact : List (String × String) := [
   ("float","subnormal"),("float","max"),("float","none"),
   ("double","tenth"),("double","big"),("double","inf"),("double","nan"),("double","subnormal"),("double","int"),("double","bool"),
   ("double","negzero"),("double","none"),
-  ("string","ascii"),("string","empty"),("string","unicode"),("string","nul"),("string","bytes"),("string","none"),
+  ("string","ascii"),("string","empty"),("string","unicode"),("string","nul"),("string","bytes"),("string","long"),("string","none"),
   ("date","date"),("date","datetime-midnight"),("date","int"),("date","none"),
   ("timestamp","naive"),("timestamp","aware-utc"),("timestamp","aware-offset"),("timestamp","min"),("timestamp","max"),("timestamp","none"),
   ("time","time"),("time","midnight"),("time","none"),
